@@ -14,9 +14,10 @@
    compared with the motion" enters as the DOMINANCE premise on the recorded
    score matrix of each call (`dominant`, measured by the harness on every
    recorded matrix): the score of an animal's detection against the track it
-   owns is a number (the track still has a candidate in the window: absences
-   shorter than the window) and beats every other score of its row and of its
-   column.  `scene_step_ok` adds the side conditions: one detection per
+   owns is a number (D1: the track still has a candidate in the window — proved
+   from "absences shorter than the window" by c10_recent_animal_has_candidate +
+   c10_candidate_gives_a_number) and beats every other score of its row and of
+   its column.  `scene_step_ok` adds the side conditions: one detection per
    animal, all above the threshold, and either every detection belongs to a
    known animal or every known animal is detected (late arrivals only while
    everyone is visible).
@@ -27,7 +28,7 @@
    matcher's contract (C09). *)
 From Coq Require Import List Arith Bool ZArith QArith.
 Import ListNotations.
-From SV Require Import C09.Tracker C09.Lemmas C09.TrackerX C09.LemmasX C10.Scene C10.Lemmas.
+From SV Require Import C09.Tracker C09.Lemmas C09.TrackerX C09.LemmasX C09.LemmasR C10.Scene C10.Lemmas C10.LemmasR.
 Close Scope Q_scope.
 Open Scope nat_scope.
 
@@ -112,7 +113,8 @@ Print Assumptions c10_dominant_matrix_identity_assignment.
 
 (* --- (b) identity is preserved along every in-class history -------------- *)
 
-(* CURRENT tree: refuted.  One animal, three frames (dominance holds
+(* PINNED tree (historic: all F4 switches off, before fix 0429c9b; no code
+   implements it any more): refuted.  One animal, three frames (dominance holds
    trivially, the contract holds), both candidate methods: from the second
    frame on the animal has no track. *)
 Theorem c10_identity_refuted : forall l,
@@ -138,7 +140,10 @@ Theorem c10_identity_partial : forall cfg h, 1 <= window cfg ->
 Proof. exact identity_preserved_general. Qed.
 Print Assumptions c10_identity_partial.
 
-(* REPAIRED tree (fix_i, fix_ii): the full statement.  The remaining premise
+(* CURRENT tree (fix_i, fix_ii; /repo HEAD has all F4 repairs): the full
+   statement for the base model `step`; `c10x_identity_preserved_widened_any_fix`
+   below carries it to the widened tracker `xstep` in the current configuration
+   (the two agree on every in-class call).  The remaining premise
    `scores_raise = false` is F4(iii)'s nanmax failure; it holds by definition
    when scoring_reduction = mean or fix_iii is applied (next lemma). *)
 Theorem c10_identity_preserved_repaired : forall cfg h,
@@ -151,6 +156,7 @@ Theorem c10_identity_preserved_repaired : forall cfg h,
 Proof. exact identity_preserved_repaired. Qed.
 Print Assumptions c10_identity_preserved_repaired.
 
+(* (definitional: an unfolding of `scores_raise`) *)
 Lemma c10_scores_never_raise_mean_or_fixed : forall cfg st n,
   red_max cfg = false \/ fix_iii cfg = true -> scores_raise cfg st n = false.
 Proof. exact scores_raise_mean_or_fixed. Qed.
@@ -179,10 +185,154 @@ Example ex_two_animals_repaired :
   /\ snd (run10 cfg h) = [(1, 0); (2, 1)].
 Proof. vm_compute. auto. Qed.
 
+(* non-vacuity of the WHOLE premise (incl. the matcher contract): fixed window 2,
+   greedy; animal 1 is absent for one frame (shorter than the window), comes
+   back listed second, then animal 3 arrives late while 1 and 2 are visible *)
+Example ex_scene_hyp_absence_late_arrival :
+  Forall (scene_hyp_repaired cfgG) (trace10 cfgG init [] hG) /\
+  map fst (fst (run10 cfgG hG)) =
+    [Ok [(1, Some 0); (2, Some 1)]; Ok [(2, Some 1)]; Ok [(2, Some 1); (1, Some 0)];
+     Ok [(3, Some 2); (2, Some 1); (1, Some 0)]].
+Proof. exact (conj exG_premise exG_run). Qed.
+
+(* --- "across absences shorter than the tracking window" ------------------ *)
+
+(* D1 of the dominance premise (the score of an animal against its own track is
+   a number) is where the window enters.  It is not an independent assumption:
+   the state machine guarantees that the track still HAS a candidate whenever
+   the animal's absence was shorter than the window (fixed window: it was
+   detected in one of the last `window` earlier calls that had detections —
+   empty frames do not count; local queues: always, a deque once created never
+   becomes empty), and a candidate means a number wherever the NaN pattern
+   follows the queues (`nan_consistent`, checked by the harness on every recorded
+   matrix without optical flow).  What remains measured is only the numeric
+   part (D2, D3: "far apart compared with the motion"). *)
+Lemma has_dets_def : forall x,
+  has_dets x = match f_dets (s_frame x) with [] => false | _ :: _ => true end.
+Proof. reflexivity. Qed.
+Print Assumptions has_dets_def.
+
+Lemma lastn_def : forall A w (l : list A), lastn w l = skipn (length l - w) l.
+Proof. reflexivity. Qed.
+Print Assumptions lastn_def.
+
+Theorem c10_recent_animal_has_candidate : forall cfg h,
+  fix_i cfg = true -> fix_ii cfg = true -> 1 <= window cfg ->
+  Forall (scene_hyp_repaired cfg) (trace10 cfg init [] h) ->
+  forall pre x post, trace10 cfg init [] h = pre ++ x :: post ->
+  forall a t, own_of (s_own x) a = Some t ->
+  lq cfg = true \/
+  (exists y, In y (lastn (window cfg) (filter has_dets pre)) /\ In a (uids (f_dets (s_frame y)))) ->
+  has_cand cfg (s_state x) t = true.
+Proof. exact recent_animal_has_candidate. Qed.
+Print Assumptions c10_recent_animal_has_candidate.
+
+(* local queues, ANY history with valid matcher answers (no scene premise at
+   all): no current track is ever without a candidate *)
+Theorem c10_local_queue_tracks_keep_candidates : forall cfg h, lq cfg = true -> 1 <= window cfg ->
+  Forall (contract_step cfg) (trace cfg init h) ->
+  Forall (fun x => forall t, In t (cur (t_state x)) -> has_cand cfg (t_state x) t = true)
+         (trace cfg init h).
+Proof. exact lq_tracks_keep_candidates. Qed.
+Print Assumptions c10_local_queue_tracks_keep_candidates.
+
+(* fixed window: what the deque holds after an in-class call *)
+Theorem c10_fixed_window_queue_step : forall cfg st own f,
+  lq cfg = false -> fix_i cfg = true -> fix_ii cfg = true -> 1 <= window cfg ->
+  Inv10 cfg st own -> scene_hyp_repaired cfg (st, own, f, snd (step cfg st f)) ->
+  exists out, snd (step cfg st f) = Ok out /\ map fst out = uids (f_dets f) /\
+    fwq (fst (step cfg st f)) =
+      match f_dets f with [] => fwq st | _ :: _ => push (window cfg) (fwq st) out end.
+Proof. exact fw_step_fwq. Qed.
+Print Assumptions c10_fixed_window_queue_step.
+
+(* candidate + NaN pattern of the queues => D1 *)
+Theorem c10_candidate_gives_a_number : forall cfg st n M r t,
+  nan_consistent cfg st n M = true -> r < n -> In t (cur st) ->
+  has_cand cfg st t = true -> is_some (cell M r t) = true.
+Proof. exact nan_consistent_has_cand. Qed.
+Print Assumptions c10_candidate_gives_a_number.
+
+(* the bound is sharp: fixed window 1, animal 1 absent for one frame (= the
+   window): its track 0 has lost its candidate, track 1 has not *)
+Example ex_absence_of_window_length_loses_candidate :
+  let cfg := mkConfig false true 1 false true true true in
+  let h : list frame :=
+    [ ([(1,true);(2,true)], [], AFail);
+      ([(2,true)], [[Some 0%Q; Some 1%Q]], APairs [(0,1)]) ] in
+  has_cand cfg (final_state cfg init h) 0 = false /\ has_cand cfg (final_state cfg init h) 1 = true.
+Proof. exact ex_window_exceeded. Qed.
+
 (* --- round 2: the widened tracker model --------------------------------- *)
 
 (* C09/TrackerX.v adds `max_tracks`, the name checks and (through the recorded
-   score matrices) FlowShiftTracker.  For valid names and ANY max_tracks: if no
+   score matrices) FlowShiftTracker, and the switches fix_cap / fix_iv.
+
+   CURRENT tree and every other setting of fix_cap / fix_iv (OPERATIVE; the
+   harness evaluates `xrun_case` with fix_cap = fix_iv = true): valid names, ANY
+   max_tracks; premises on the widened tracker's OWN executed calls
+   (`xtrace10`): the scene premise, and room under the cap (`cap_room`: tracks
+   that exist + new tracks the call asks for <= max_tracks; evaluated inside Coq
+   on every recorded call as `TrackerX.cap_roomb`).  Then `xstep` IS `step` at
+   every call, and every identity is kept. *)
+Lemma xtrace10_def : forall X st own f r,
+  xtrace10 X st own (f :: r) =
+  (st, own, f, snd (xstep X st f)) ::
+  match snd (xstep X st f) with
+  | Ok _ => xtrace10 X (fst (xstep X st f)) (owners_after own (length (cur st)) (snd (xstep X st f))) r
+  | Raise _ => []
+  end.
+Proof. reflexivity. Qed.
+Print Assumptions xtrace10_def.
+
+Lemma room10_def : forall X x,
+  room10 X x =
+  (forall K, cap_of X = Some K ->
+     length (cur (s_state x)) + need X (s_state x) (s_frame x) <= K).
+Proof. reflexivity. Qed.
+Print Assumptions room10_def.
+
+Theorem c10x_room_is_checked : forall X st f o, cap_roomb X st f = true <-> cap_room X (st, f, o).
+Proof. exact cap_roomb_spec. Qed.
+Print Assumptions c10x_room_is_checked.
+
+Theorem c10x_xstep_is_step_in_class : forall X h x,
+  names_ok X = true -> fix_i (base X) = true -> fix_ii (base X) = true -> 1 <= window (base X) ->
+  Forall (scene_hyp_repaired (base X)) (xtrace10 X init [] h) ->
+  Forall (room10 X) (xtrace10 X init [] h) ->
+  In x (xtrace10 X init [] h) ->
+  xstep X (s_state x) (s_frame x) = step (base X) (s_state x) (s_frame x).
+Proof. exact xstep_is_step_in_class. Qed.
+Print Assumptions c10x_xstep_is_step_in_class.
+
+Theorem c10x_identity_preserved_widened_any_fix : forall X h,
+  names_ok X = true -> fix_i (base X) = true -> fix_ii (base X) = true -> 1 <= window (base X) ->
+  Forall (scene_hyp_repaired (base X)) (xtrace10 X init [] h) ->
+  Forall (room10 X) (xtrace10 X init [] h) ->
+  xtrace10 X init [] h = trace10 (base X) init [] h /\
+  xrun X h = run (base X) h /\
+  exists track_of : owners,
+    NoDup (map fst track_of) /\ NoDup (map snd track_of) /\
+    length (xrun X h) = length h /\
+    Forall (fun x => identity_step x track_of) (xtrace10 X init [] h).
+Proof. exact identity_preserved_widened_any. Qed.
+Print Assumptions c10x_identity_preserved_widened_any_fix.
+
+(* non-vacuity for the CURRENT configuration `x_rep` (fix_cap = fix_iv = true):
+   local queues, window 2, greedy, max_tracks = 3 = number of animals (the cap is
+   reached, never exceeded); the scene above with an absence and a late arrival *)
+Example ex_widened_current_absence_late_arrival :
+  fix_cap XG = true /\ fix_iv XG = true /\ cap_of XG = Some 3 /\
+  Forall (scene_hyp_repaired (base XG)) (xtrace10 XG init [] hG) /\
+  Forall (room10 XG) (xtrace10 XG init [] hG) /\
+  xrun XG hG =
+    [Ok [(1, Some 0); (2, Some 1)]; Ok [(2, Some 1)]; Ok [(2, Some 1); (1, Some 0)];
+     Ok [(3, Some 2); (2, Some 1); (1, Some 0)]].
+Proof. repeat split; try reflexivity. exact exXG_premise. exact exXG_room. Qed.
+
+(* HISTORIC variant (tree before 6da44fb / afd312c: fix_iv = false, cap as it
+   was; no code implements it any more — kept as documentation of round 2 and
+   for regression reports).  For valid names and ANY max_tracks: if no
    call needs a track id beyond the cap (`cap_silent`, C09's selector of F4cap;
    e.g. max_tracks >= number of animals), the widened tracker returns exactly
    what Tracker.v's model returns, and therefore keeps every identity on every
@@ -200,7 +350,7 @@ Theorem c10x_identity_preserved_widened : forall X h,
 Proof. exact identity_preserved_widened. Qed.
 Print Assumptions c10x_identity_preserved_widened.
 
-(* non-vacuity: the two-animal scene above under local queues with max_tracks = 2 *)
+(* non-vacuity (historic variant `x_now`): the two-animal scene above under local queues with max_tracks = 2 *)
 Example ex_two_animals_widened :
   let X := x_now (mkConfig true false 3 false true true true) (Some 2) in
   let h : list frame :=
